@@ -75,6 +75,69 @@ def flavour(F, b, tmpl):
     return "payload" if me == locs[0] else "void"
 
 
+def _kinds_in(F, node):
+    return set(x["n"] for x in walk(node) if x.get("k") == "var" and x.get("d") == "enum" and x.get("o") == "TransitionType")
+
+
+def issued_kind(F, f):
+    """the TransitionType a request function puts into the Transition it queues (its body names exactly one enumerator)"""
+    b = F.body(f)
+    ks = _kinds_in(F, b["body"]) if b else set()
+    if len(ks) != 1:
+        raise AnalysisBroken("%s names %s TransitionType enumerators, expected exactly one" % (F.fdisp(f), sorted(ks)))
+    return next(iter(ks))
+
+
+def stored_kinds(F):
+    """kinds PlanT / PayloadPlanT can store: enumerators handed to append() by their members (instantiated or not)"""
+    out = set()
+    for b in F.bodies.values():
+        if b.get("cls") in ("PlanT", "PayloadPlanT", "PlanBaseT") and b["name"] != "append":
+            out |= _kinds_in(F, b["body"])
+    return out
+
+
+def check_kind_agreement(ctx, F, fid, site, loop, emits):
+    """every request is issued under the `case` of a switch over it->type whose label is the kind the called request function queues,
+    and every kind a plan can store has a case"""
+    from ..ir import _flatten_switch
+    covered = {}          # id(emit) -> labels
+    handled = set()
+    for sw in walk(loop["b"]):
+        if sw.get("k") != "switch" or _expr_txt(sw.get("c") or {}) != "it->type":
+            continue
+        cur = []
+        for labels, st in _flatten_switch(sw["b"]):
+            for l in labels:
+                if l != "default":
+                    cur.extend(sorted(_kinds_in(F, l)))
+            if st is None:
+                continue
+            if st.get("k") == "break":
+                cur = []
+                continue
+            for x in walk(st):
+                for e in emits:
+                    if x is e:
+                        covered[id(e)] = list(cur)
+                        handled.update(cur)
+    for e in emits:
+        kind = issued_kind(F, e["f"])
+        labels = covered.get(id(e))
+        name = F.fn(e["f"])["name"]
+        ctx.instance("C06.task-fields", "%s/kind/%s@%s" % (site, name, ",".join(labels or ["-"])), {"request": name, "queues": kind, "under_case": labels})
+        if labels is not None and kind not in labels:
+            ctx.violation("C06.task-fields", "%s/kind/%s" % (site, name), "%s (%s)" % (site, F.floc(fid)),
+                          "a task of kind %s is executed by %s(), which queues a %s transition" % ("/".join(labels) or "<default>", name, kind), {})
+    if covered:
+        stored = stored_kinds(F)
+        # kinds whose request function does not exist in this configuration cannot be stored either (UTILIZE / RANDOMIZE without utility theory)
+        missing = sorted(k for k in stored - handled)
+        if missing:
+            ctx.violation("C06.task-fields", site + "/kind-missing", "%s (%s)" % (site, F.floc(fid)),
+                          "plan members can store tasks of kind %s but updatePlan has no case for them" % missing, {})
+
+
 def check_update_plan(ctx, F):
     for fid, b in insts(F, "FullControlT", {"updatePlan"}):
         fl = flavour(F, b, "FullControlT")
@@ -105,14 +168,26 @@ def check_update_plan(ctx, F):
                           {"read": sorted(read), "issues": kinds})
         for f in sorted(want - read - {"type"}):
             ctx.violation("C06.task-fields", site + "/" + f, "%s (%s)" % (site, F.floc(fid)), "task field `%s` is never read by updatePlan" % f, {})
+        # locals bound once to an expression over the iterator (`const Payload* const payload = it->payload()`) stand for that expression
+        local_init = {}
+        for x in walk(body):
+            vs = [x["cvar"]] if x.get("k") == "if" and x.get("cvar") else (x.get("vars", []) if x.get("k") == "decl" else [])
+            for v in vs:
+                if v.get("n") and v.get("init") is not None and v.get("const"):
+                    local_init[v["n"]] = _expr_txt(v["init"])
+
+        def resolve(txt):
+            m = re.match(r"^(\*?)(\w+)$", txt or "")
+            return m.group(1) + local_init[m.group(2)] if m and m.group(2) in local_init else txt
         for x in emits:
-            args = [_expr_txt(a) for a in x.get("a", [])]
+            args = [resolve(_expr_txt(a)) for a in x.get("a", [])]
             if not args or args[0] != "it->destination":
                 ctx.violation("C06.task-fields", site + "/destination", "%s (%s)" % (site, F.floc(fid)),
                               "request is issued to `%s`, expected it->destination" % (args[0] if args else None), {})
             if F.fn(x["f"])["name"].endswith("With") and (len(args) < 2 or "payload()" not in args[1]):
                 ctx.violation("C06.task-fields", site + "/payload", "%s (%s)" % (site, F.floc(fid)),
                               "payload passed is `%s`, expected *it->payload()" % (args[1] if len(args) > 1 else None), {})
+        check_kind_agreement(ctx, F, fid, site, loop, emits)
         # guards
         ctx.instance("C06.exec-guards", site, {"function": site, "loc": F.floc(fid), "loop_condition": cond})
         if cond not in ("it&&isActive(it->origin)", "isActive(it->origin)&&it"):
@@ -412,7 +487,7 @@ def skeleton(F, fid, erase):
                 n = F.fn(ev[2])["name"]
                 if n in erase or n in ("operator->", "operator*", "operator bool", "operator[]"):
                     continue
-                n = {"changeWith": "changeTo"}.get(n, n)
+                n = {"changeWith": "changeTo"}.get(n, re.sub(r"With$", "", n))
                 obj = re.sub(r"^.*\.", "", ev[3] or "")
                 toks.append("%s.%s" % (obj, n) if obj else n)
             elif ev[0] == "write":
